@@ -33,7 +33,7 @@ CLAIMS = {
          "6 C07", "Coq proof (refinement / round trip) + twin-run differential"),
  "C08": ("proof: the flash-backed parity / matrix storages can only program inside [parity slot + 0x400, slot end) for any arguments, data blocks and status bytes land where the layout says for accepted geometries, rows / blocks are disjoint (arithmetic for every index and size), NOR read-back, and at run level on the executable model every handle_segment call (any outcome, any fault), every delivery and every successful start_update touches only the session's two slots (c08_handle_segment_confined, c08_delivery_confined, c08_start_update_confined); every erase / program of every generated scenario (ring positions incl. the last slot, losses beyond capacity, every other API call via the ring closure) is monitored and compared with the model.",
          "6 C08", "Coq proof (address arithmetic, confinement) + operation-log monitor over differential streams"),
- "C10": ("proof: the three implementation-shaped generators equal the TS004 reference for every M and 1 <= N <= 16383 in both feature modes, index shift of the updater matrix, rows in range / non-empty / exact weight with force-full-r, interop vectors and pinned rows by computation; termination is proved for every M that is not a power of two and by computation for the powers of two up to 128 (exercised only for M in 256..16384 and for the force-full-r loop); lfdbt stream over exhaustive small and sampled large (M, N) in both builds against the model and an independent reference.",
+ "C10": ("proof: the three implementation-shaped generators equal the TS004 reference for every M and 1 <= N <= 16383 in both feature modes, index shift of the updater matrix, rows in range / non-empty / exact weight with force-full-r, interop vectors and pinned rows by computation; termination is proved for every M that is not a power of two and by computation for the powers of two up to 128 with N <= 1023 (exercised only for M in 256..16384 and for the force-full-r loop); lfdbt stream over exhaustive small and sampled large (M, N) in both builds against the model and an independent reference.",
          "6 C10", "Coq proof (generator = spec) + differential lfdbt stream; termination clause proved in part"),
  "C14": ("proof: the prefix-skip loop digests exactly bytes [68, count*size) for every size and count, CRC-32/CKSUM check value, single-bit detection for every length and position, validation gate iff, read-only validation, CRC gate of the final mark, flash-level routine of the executable model = list-level routine; slots prepared with every fragment size and boundary counts, single-bit corruptions inside / outside the covered range, both crates' routines, against the model and an independent CRC.",
          "6 C14", "Coq proof (loop invariant, CRC algebra) + differential session-crc stream"),
